@@ -62,12 +62,17 @@ def _name_mode(_):
     mod = key_check.module()
     out = []
     try:
-        cfg = Config(root / 'data', name='my_cfg', data={'tasks': [mod.KaTask, mod.KbTask, mod.KcTask, mod.KdTask], 'x': 1})
-        ch = cfg.chain(parameter_mode=False)
-        for name, rel in (('a', 'a/my_cfg.json'), ('g:b', 'g/b/my_cfg.npy'), ('h:g:c', 'h/g/c/my_cfg.pd'), ('d', 'd/my_cfg')):
-            got = str(Path(ch[name].data_path).relative_to(root / 'data'))
-            if got != rel:
-                out.append(('layout', f'namemode:{name}', f'name mode: {name} stored at {got}, the scheme gives {rel}'))
+        for cname in ('my_cfg', 'model.v2', 'a.b.c', 'name with space'):
+            cfg = Config(root / 'data', name=cname, data={'tasks': [mod.KaTask, mod.KbTask, mod.KcTask, mod.KdTask], 'x': 1})
+            ch = cfg.chain(parameter_mode=False)
+            for name, rel in (('a', f'a/{cname}.json'), ('g:b', f'g/b/{cname}.npy'), ('h:g:c', f'h/g/c/{cname}.pd'),
+                              ('d', f'd/{cname}')):
+                got = str(Path(ch[name].data_path).relative_to(root / 'data'))
+                d = ch[name]._data_without_value
+                sides = [Path(d.run_info_path).name, Path(d.log_path).name]
+                if got != rel:
+                    out.append(('layout', f'namemode:{name}:{cname}', f'name mode, config {cname!r}: {name} stored at {got}, '
+                                                                      f'the scheme gives {rel}'))
     finally:
         shutil.rmtree(root, ignore_errors=True)
     return out
@@ -84,6 +89,9 @@ def run(ctx):
         for cat, sig, what in bad:
             if cat == 'harness':
                 raise MachineryError(what)
+            if cat == 'rewrite' and not sig.startswith('rewrite:ns'):
+                ctx.note(f'rewrite divergence (belongs to C02): {what[:160]}')
+                continue
             ctx.report(sig, what, detail=cases[idx])
     step = max(1, len(cases) // (300 if ctx.quick() else 3000))
     planted = pmap(_planted, [(i, c) for i, c in enumerate(cases) if i % step == 0])
